@@ -35,6 +35,7 @@ type Runner struct {
 	S               *sim.Server
 	ServerDoc       bool // C02/C20: compare server-side rebuilds with a replica fed change by change
 	ServerDocSparse bool // rebuild only after some of the steps
+	CacheOnly       bool // C20: compare cache-served rebuilds with the rebuild from the store alone
 	seq             int
 	Hook            func(r *Run, stepIdx int, st *Step) // optional: called after each step
 }
@@ -46,6 +47,7 @@ type Run struct {
 	Stale           []bool // client attached under an older epoch (a compaction happened since)
 	Compactions     int
 	ref             *RefReplica
+	cacheOnly       bool
 	Trace           []sim.CallRec
 	FirstNoPresence bool
 	H               *History
@@ -421,7 +423,7 @@ func (rn *Runner) Start(ctx context.Context, h *History) (*Run, error) {
 	if err != nil {
 		return nil, err
 	}
-	r := &Run{H: h, Stale: make([]bool, h.N), Out: &Outcome{}, DocKey: fmt.Sprintf("d%d-%d", gotime.Now().UnixNano()%1000000, rn.seq), Project: p, S: rn.S}
+	r := &Run{H: h, Stale: make([]bool, h.N), Out: &Outcome{}, DocKey: fmt.Sprintf("d%d-%d", gotime.Now().UnixNano()%1000000, rn.seq), Project: p, S: rn.S, cacheOnly: rn.CacheOnly}
 	if err := key.Key(r.DocKey).Validate(); err != nil {
 		return nil, err
 	}
@@ -880,7 +882,9 @@ func (rn *Runner) RunFull(ctx context.Context, h *History) (*Run, *Outcome) {
 		}
 	}
 	r.Finish(ctx)
-	if ref != nil {
+	if ref != nil && rn.CacheOnly {
+		r.CheckServerDocNow(ctx, ref, len(h.Steps))
+	} else if ref != nil {
 		r.CheckAgainstRef(ctx, ref)
 		r.CheckServerDocNow(ctx, ref, len(h.Steps))
 		r.CheckServerDocsCold(ctx, ref)
